@@ -125,6 +125,14 @@ def cell_points(cell, n_interior, rng):
             dn = np.nextafter(dn, -np.inf)
             pts += [float(up), float(dn)]
         pts += [x + 1e-9, x - 1e-9, x + 1e-6, x - 1e-6]
+        # thresholds the program itself tests around this root (ExprAbs.ThreshAt): both sides of x +- delta, the
+        # threshold itself +- ulps, and log-spaced offsets through the neighbourhood
+        for q in cell.get("thr", []):
+            d = float(fr(q))
+            for sgn in (1.0, -1.0):
+                t = x + sgn * d
+                pts += [t, float(np.nextafter(t, np.inf)), float(np.nextafter(t, -np.inf))]
+                pts += [x + sgn * d * f for f in (0.01, 0.1, 0.3, 0.5, 0.9, 0.99, 1.01, 1.1, 2.0, 3.0, 5.0, 9.0, 11.0, 30.0, 100.0, 1e3, 1e4)]
     else:
         lo, hi = float(fr(cell["lo"])), float(fr(cell["hi"]))
         pts += [float(np.nextafter(lo, np.inf)), float(np.nextafter(hi, -np.inf)), 0.5 * (lo + hi)]
